@@ -115,10 +115,15 @@ Theorem C01_padded : forall (C : cipher), cipher_wf C -> forall ke kd st (al : b
 Proof. exact padded_roundtrip. Qed.
 Print Assumptions C01_padded.
 
-(* ... which CBC, PCBC and IGE are, from every IV *)
-Theorem C01_padded_pairs : forall (C : cipher), cipher_wf C -> DE_id C ->
-  (forall iv x, length iv = c_bs C -> pair_ok C KCbcE KCbcD (iv, x)) /\
-  (forall iv x, length iv = c_bs C -> pair_ok C KPcbcE KPcbcD (iv, x)) /\
-  (forall x y, length x = c_bs C -> length y = c_bs C -> pair_ok C KIgeE KIgeD (x, y)).
-Proof. intros C Hw Hd. repeat split; intros; first [now apply cbc_pair_ok | now apply pcbc_pair_ok | now apply ige_pair_ok]. Qed.
+(* ... which CBC, PCBC and IGE are, from every IV (given D (E x) = x), and CFB and OFB for any E *)
+Theorem C01_padded_pairs : forall (C : cipher), cipher_wf C ->
+  (DE_id C -> forall iv x, length iv = c_bs C -> pair_ok C KCbcE KCbcD (iv, x)) /\
+  (DE_id C -> forall iv x, length iv = c_bs C -> pair_ok C KPcbcE KPcbcD (iv, x)) /\
+  (DE_id C -> forall x y, length x = c_bs C -> length y = c_bs C -> pair_ok C KIgeE KIgeD (x, y)) /\
+  (forall s x, length s = c_bs C -> pair_ok C KCfbE KCfbD (s, x)) /\
+  (forall iv x, length iv = c_bs C -> pair_ok C KOfbE KOfbD (iv, x)).
+Proof.
+  intros C Hw. repeat split; intros;
+    first [now apply cbc_pair_ok | now apply pcbc_pair_ok | now apply ige_pair_ok | now apply cfb_pair_ok | now apply ofb_pair_ok].
+Qed.
 Print Assumptions C01_padded_pairs.
